@@ -36,6 +36,18 @@ def _c07(tier):
     return c07.run(tier)
 
 
+def _c10(tier):
+    from . import c10
+
+    return c10.run(tier)
+
+
+def _c11(tier):
+    from . import c11
+
+    return c11.run(tier)
+
+
 CHECKS = {
     "C01": _keval("C01"),
     "C02": _keval("C02"),
@@ -43,6 +55,8 @@ CHECKS = {
     "C04": _c04,
     "C05": _c05,
     "C07": _c07,
+    "C10": _c10,
+    "C11": _c11,
     "C16": _c16,
 }
 
